@@ -29,18 +29,26 @@ Join(a, b) == a \o <<Dot>> \o b
 LabelOf(datum, pre) == IF pre = "none" THEN C(datum) ELSE Join(C(datum), C(pre))
 ModSuffix(p) == (IF p.dt # "none" THEN <<Dot>> \o C(p.dt) ELSE <<>>) \o (IF p.mt # "none" THEN <<Dot>> \o C(p.mt) ELSE <<>>)
 
-RECURSIVE UnparseCond(_, _), UnparseArg(_, _), UnparsePart(_, _)
+RECURSIVE UnparseCond(_, _), UnparseArgD(_, _, _), UnparsePart(_, _)
 
-\* literal mapping arguments: keys starting with "path" are escaped
+\* literal mapping arguments: keys starting with "path" are escaped.  from_spec inspects the items /
+\* values of a list / mapping argument one level down only, and not at all in a mapping that has an
+\* escaped key: the serialiser converts / escapes exactly there (depth 0 = the argument itself).
 EscKey(cs, esc) == IF esc /\ StartsWith(cs, PathCode) THEN <<92>> \o cs ELSE cs
-UnparseArg(v, esc) ==
+PathLikeKey(kv) == kv.k = "str" /\ StartsWith(kv.xs, PathCode)
+UnparseArgD(v, esc, depth) ==
   CASE v.k = "dpath" -> MapV(<< <<StrV(PathCode \o ModSuffix(v.xs[1])),
                                   ListV([j \in 1..Len(v.xs[1].parts) |-> UnparsePart(v.xs[1].parts[j], esc)])>> >>)
-    [] v.k \in {"list", "tuple"} -> ListV([j \in 1..Len(v.xs) |-> UnparseArg(v.xs[j], esc)])
-    [] v.k = "map" -> MapV([j \in 1..Len(v.xs) |->
-                             <<IF v.xs[j][1].k = "str" THEN StrV(EscKey(v.xs[j][1].xs, esc)) ELSE v.xs[j][1],
-                               UnparseArg(v.xs[j][2], esc)>>])
+    [] v.k \in {"list", "tuple"} ->
+         IF depth = 0 THEN ListV([j \in 1..Len(v.xs) |-> UnparseArgD(v.xs[j], esc, depth + 1)]) ELSE v
+    [] v.k = "map" ->
+         LET anyPath == \E j \in 1..Len(v.xs) : PathLikeKey(v.xs[j][1])
+             recurse == depth = 0 /\ ~anyPath
+         IN MapV([j \in 1..Len(v.xs) |->
+                   <<IF v.xs[j][1].k = "str" THEN StrV(EscKey(v.xs[j][1].xs, esc)) ELSE v.xs[j][1],
+                     IF recurse THEN UnparseArgD(v.xs[j][2], esc, depth + 1) ELSE v.xs[j][2]>>])
     [] OTHER -> v
+UnparseArg(v, esc) == UnparseArgD(v, esc, 0)
 
 UnparseCond(c, esc) ==
   CASE c.t = "null" -> MapV(<<>>)
@@ -48,12 +56,13 @@ UnparseCond(c, esc) ==
          LET key == StrV(Join(LabelOf(c.datum, c.pre), C(c.fn)))
              types == c.pre = "dtype" \/ c.fn \in {"is_instance", "keys_is_instance"}
              conv(v) == IF types THEN TypesToNames(v) ELSE UnparseArg(v, esc)
+             conv1(v) == IF types THEN TypesToNames(v) ELSE UnparseArgD(v, esc, 1)
              nf == NormFixed(c.fn, c.args, c.kw)
              val == CASE SigKind(c.fn) = "none" -> None
-                      [] SigKind(c.fn) = "varpos" -> ListV([j \in 1..Len(c.args) |-> conv(c.args[j])])
-                      [] SigKind(c.fn) = "varkw" -> MapV([j \in 1..Len(c.kw) |-> <<StrV(c.kw[j].nc), conv(c.kw[j].v)>>])
+                      [] SigKind(c.fn) = "varpos" -> ListV([j \in 1..Len(c.args) |-> conv1(c.args[j])])
+                      [] SigKind(c.fn) = "varkw" -> MapV([j \in 1..Len(c.kw) |-> <<StrV(c.kw[j].nc), conv1(c.kw[j].v)>>])
                       [] Len(Params(c.fn)) = 1 -> conv(nf[1].v)
-                      [] OTHER -> MapV([j \in 1..Len(nf) |-> <<StrV(nf[j].nc), conv(nf[j].v)>>])
+                      [] OTHER -> MapV([j \in 1..Len(nf) |-> <<StrV(nf[j].nc), conv1(nf[j].v)>>])
          IN MapV(<< <<key, val>> >>)
     [] OTHER -> MapV(<< <<StrV(C(c.t)), ListV(<<UnparseCond(c.l, esc), UnparseCond(c.r, esc)>>)>> >>)
 
